@@ -67,7 +67,10 @@ def hostPort (scheme hp : Str) : Target :=
     | (inside, after, true) =>
       let port := match after with | ':' :: p => some p | [] => some [] | _ => none
       match port with
-      | some p => if p.all isDigit && portVal p ≤ 65535 then .abs scheme (toLower (inside ++ [']'])) (if stripZeros p = defaultPort scheme then [] else stripZeros p) else .failure
+      | some p =>
+        -- an IPv6 literal: hex digits, ':' and '.' only, at least two colons (anything else fails the IPv6 parser)
+        if (inside.drop 1).all (fun c => ishex c || c = ':' || c = '.') && (inside.count ':') ≥ 2 && p.all isDigit && portVal p ≤ 65535
+        then .abs scheme (toLower (inside ++ [']'])) (if stripZeros p = defaultPort scheme then [] else stripZeros p) else .failure
       | none => .failure
     | _ => .failure
   else
